@@ -455,4 +455,7 @@ class SourceMapBuilder:
         return self
 
     def build(self) -> SourceMap:
-        return SourceMap(self._mappings, self._pos_marks, self._mappings_macros, self._pos_marks_macros)
+        # Copies, the builder can still be added to (all macros of a file share one builder).
+        return SourceMap(
+            dict(self._mappings), list(self._pos_marks), dict(self._mappings_macros), list(self._pos_marks_macros)
+        )
